@@ -60,7 +60,10 @@ def run(tier: str) -> int:
         # byte-identical files of different languages, empty files: a file's result must not depend on neighbours
         twin = "int shape(int a) {\n  if (a) {\n    return a;\n  }\n  return 0;\n}\n"
         for rel, text in (("legacy/shape.c", twin), ("modern/shape.cpp", twin), ("web/same.js", "function f(a) {\n  return a;\n}\n"), ("web/same.ts", "function f(a) {\n  return a;\n}\n"),
-                          ("pkg/__init__.py", ""), ("pkg/stub.js", ""), ("a/copy.py", POOL["f1"][1]), ("b/copy.py", POOL["f1"][1])):
+                          ("pkg/__init__.py", ""), ("pkg/stub.js", ""), ("a/copy.py", POOL["f1"][1]), ("b/copy.py", POOL["f1"][1]),
+                          # names without extension: some map to a supported language by their whole name, some to another lexer, some to none
+                          ("LICENSE", "def not_code():\n    pass\n"), ("tools/BUILD", "def library(name):\n    return name\n"), ("Dockerfile", "FROM x\nRUN def f():\n"),
+                          ("SConstruct", "def build(env):\n    return env\n"), ("docs/README", "def readme():\n    pass\n"), ("Makefile", "all:\n\tdef x():\n")):
             (gen / rel).parent.mkdir(parents=True, exist_ok=True)
             (gen / rel).write_text(text)
         corpus_copy = top / "corpus"
